@@ -45,12 +45,16 @@ Den(c, p, method) ==
 ShapeHop(s, t) == LET n == Norm(s) IN t \in {n \o <<SLASH>>, MergeSl(n), MergeSl(n) \o <<SLASH>>}
 HopKind(h, i) == IF ShapeHop(h[i].path, h[i + 1].path) THEN "shape" ELSE "canon"
 
+HasPctEscape(s) == \E i \in 1..(Len(s) - 2) : s[i] = 37 /\ IsHex(s[i + 1]) /\ IsHex(s[i + 2])
+
 \* The script root may be spelled as it is (what the router does for the plain roots of the documentation)
 \* or percent-encoded (the correct URI spelling of a root with non-ASCII characters, spaces, ...): both denote it.
 UrlClause(c, ln, h, i) ==
   LET u == SplitUrl(h[i].r.url)
       root == Root(c.bind.script)
-      roots == {root, Quote(root)}
+      \* ... except when the root itself contains a valid percent escape (%XX): written as it is, a client
+      \* decodes it to another root, so only the percent-encoded spelling denotes the bound one
+      roots == IF HasPctEscape(root) THEN {Quote(root)} ELSE {root, Quote(root)}
       qt == QueryText(ln.q)
   IN IF ~u.ok \/ u.scheme # c.bind.scheme \/ u.host # HostOf(c.bind) \/ ~\E rt \in roots : IsPrefixOf(rt, u.path) THEN "OnBoundHost"
      ELSE IF ~((qt = <<>> /\ ~u.hasq) \/ (qt # <<>> /\ u.hasq /\ u.query = qt)) THEN "QueryPreserved"
